@@ -9,11 +9,12 @@ interleavings of the same scripts.
 
 from __future__ import annotations
 
+import json
 import random
 from typing import Any
 
 import world
-from graphsim import GRAPH_VALUED, SURGERY_OPS, gen_dsep_op, gen_surgery_op, model_op
+from graphsim import GRAPH_VALUED, SURGERY_OPS, gen_dsep_op, gen_surgery_op, model_op, op_valid
 from models import MG
 
 
@@ -108,6 +109,7 @@ def gen_case_c14(seed: int, s: int, w: int, tier: str) -> dict:
     callers = [f"c{i}" for i in range(K)]
     rounds = []
     prev: list[tuple[list, MG]] = []  # graph-valued results of earlier rounds
+    asked: list[dict] = []  # questions put to shared graphs in earlier rounds
     for r in range(nrounds):
         scripts: dict[str, list] = {}
         new_prev: list[tuple[list, MG]] = []
@@ -124,7 +126,14 @@ def gen_case_c14(seed: int, s: int, w: int, tier: str) -> dict:
                 else:
                     gi = rng.randrange(ngraphs)
                     target, m = ["g", gi], cur[gi]
-                spec = gen_surgery_op(rng, target, m)
+                spec = None
+                if asked and target[0] == "g" and rng.random() < 0.3:
+                    # re-ask: exactly the same question as in an earlier round, after the graph was edited
+                    old = asked[rng.randrange(len(asked))]
+                    if old["t"] == target and op_valid(old, m):
+                        spec = json.loads(json.dumps(old))
+                if spec is None:
+                    spec = gen_surgery_op(rng, target, m)
                 if spec is None:
                     continue
                 script.append(spec)
@@ -135,6 +144,7 @@ def gen_case_c14(seed: int, s: int, w: int, tier: str) -> dict:
                         new_prev.append((["p", r, c, len(script) - 1], rm))
             scripts[c] = script
         rnd: dict[str, Any] = {"scripts": scripts}
+        asked += [sp for sc in scripts.values() for sp in sc if sp["t"][0] == "g" and not sp["a"].get("bad")]
         prev += new_prev
         if r < nrounds - 1:
             # the owner of a returned graph goes on editing it: later operations on it must see the edits,
@@ -304,19 +314,24 @@ def gen_case_c04(seed: int, s: int, w: int, tier: str) -> dict:
     nrounds = _wchoice(rng, [(1, 0.5), (2, 0.3), (3, 0.2)])
     read_only = tuple(o for o in SURGERY_OPS if o != "intervene")
     rounds = []
+    asked4: list[dict] = []
     for r in range(nrounds):
         scripts: dict[str, list] = {}
         for i in range(K):
             script = []
             for k in range(rng.randint(1, 4)):
                 gi = rng.randrange(ngraphs)
-                if rng.random() < 0.8:
+                if asked4 and rng.random() < 0.3:
+                    old = asked4[rng.randrange(len(asked4))]
+                    sp = json.loads(json.dumps(old)) if op_valid(old, cur[old["t"][1]]) else None
+                elif rng.random() < 0.8:
                     sp = gen_dsep_op(rng, ["g", gi], cur[gi])
                 else:
                     sp = gen_surgery_op(rng, ["g", gi], cur[gi], ops=read_only)
                 if sp is not None:
                     script.append(sp)
             scripts[f"c{i}"] = script
+        asked4 += [sp for sc in scripts.values() for sp in sc if sp["op"] == "are_d_separated" and not sp["a"].get("bad")]
         rnd: dict[str, Any] = {"scripts": scripts}
         if r < nrounds - 1:
             ev = []
